@@ -585,6 +585,15 @@ void node_use(uint32_t vid, bool moved_from)
     log_event(K_USE, vid, moved_from);
 }
 
+void node_lvalue_arg(uint32_t vid)
+{
+    RtGuard g;
+    OpRec* o = ledger_op();
+    if (!o) return;
+    ++o->arg_lvalue;
+    log_event(K_LEDGER_BAD, 8, vid);
+}
+
 void set_alloc_tracking(bool) {}
 void functor_enter() { OpRec* o = cur(); if (o) ++o->functor_depth; }
 void functor_leave() { OpRec* o = cur(); if (o && o->functor_depth > 0) --o->functor_depth; }
